@@ -115,6 +115,8 @@ C0 == [y |-> 0, mo |-> 0, dd |-> 0, hh |-> 0, mi |-> 0, ss |-> 0, fr |-> <<>>, o
 WriterIndex(w) == CASE w = "isoT" -> 1 [] w = "iso" -> 2 [] w = "isodate" -> 3 [] w = "ord" -> 4 [] w = "mdy12" -> 5
                     [] w = "mdy24" -> 6 [] w = "mdy" -> 7 [] w = "ctime" -> 8 [] w = "ymd12" -> 9 [] w = "ymd24" -> 10
 Abs(n) == IF n < 0 THEN -n ELSE n
+\* the rotation of durations / anchors / zones / forms uses a multiplicative mix of the hash (all values < 2^31)
+Mix(h) == (h * 7919) % 1000003
 Hash(c, w) == Abs(c.y) * 7 + c.mo * 31 + c.dd * 13 + c.hh * 3 + Len(c.fr) * 5 + c.oi * 17 + WriterIndex(w) * 11 + Seed
 
 -----------------------------------------------------------------------------
@@ -213,9 +215,9 @@ PickMutation == /\ stage = "writer" /\ Mode = "bad"
                      /\ lit' = Write(w, Mutate(m, x)) /\ form' = w
                 /\ stage' = "form" /\ UNCHANGED q
 PickForm == /\ stage = "form" /\ Mode = "grid"
-            /\ LET h == Hash(x, form) \div K IN
+            /\ LET h == Mix(Hash(x, form)) IN
                \E j \in 0..FormsPer :
-                 q' = MakeQuery(IF j = 0 THEN "lit" ELSE Forms[((h + j - 1) % Len(Forms)) + 1], lit, h + j)
+                 q' = MakeQuery(IF j = 0 THEN "lit" ELSE Forms[((h + j - 1) % Len(Forms)) + 1], lit, (h \div 8) + j * 131)
             /\ stage' = "done" /\ UNCHANGED <<x, lit, form>>
 BadForm == /\ stage = "form" /\ Mode = "bad"
            /\ q' = Lit(lit)
